@@ -459,6 +459,105 @@ pub struct HostileTrace {
     pub patch_faults: Vec<(u32, ImgFault)>,
     pub defs: Vec<Def>,
     pub hash_seed: u64,
+    /// faults on the glyph offset arrays of the base font (loca, charstrings INDEX, gvar)
+    #[serde(default)]
+    pub carrier_faults: Vec<OffsetFault>,
+}
+
+/// One entry of a glyph offset array of the stored base font rewritten.
+/// table: 0 = outline offsets (loca / charstrings INDEX of CFF or CFF2), 1 = gvar glyph variation data offsets.
+/// idx: entry (u32::MAX = last, u32::MAX - 1 = last but one). mode: 0 flip bit `arg`, 1 swap with the next
+/// entry, 2 := 0, 3 := half, 4 := all ones, 5 := one below the previous entry, 6 := previous entry.
+#[derive(Clone, Debug, Serialize, Deserialize)]
+pub struct OffsetFault {
+    pub table: u8,
+    pub idx: u32,
+    pub mode: u8,
+    pub arg: u32,
+}
+
+/// (tag, position of the first entry, entry size, number of entries) of the offset array `table` in `font`
+fn offset_array(font: &read_fonts::FontRef, w: &world::World, table: u8) -> Option<([u8; 4], usize, usize, usize)> {
+    use read_fonts::types::Tag;
+    if table == 1 {
+        let g = font.table_data(Tag::new(b"gvar"))?;
+        let g = g.as_bytes();
+        if g.len() < 20 {
+            return None;
+        }
+        let n = u16::from_be_bytes([g[12], g[13]]) as usize;
+        let size = if g[15] & 1 == 1 { 4 } else { 2 };
+        return Some((*b"gvar", 20, size, n + 1));
+    }
+    match w.carrier {
+        0 => {
+            let head = font.table_data(Tag::new(b"head"))?;
+            let loca = font.table_data(Tag::new(b"loca"))?;
+            let size = if head.as_bytes().get(51) == Some(&1) { 4 } else { 2 };
+            Some((*b"loca", 0, size, loca.len() / size))
+        }
+        c => {
+            let tag = if c == 1 { *b"CFF " } else { *b"CFF2" };
+            let t = font.table_data(Tag::new(&tag))?;
+            let t = t.as_bytes();
+            let at = world::cff_prefix(c).len();
+            let (n, hdr) = if c == 1 { (u16::from_be_bytes([*t.get(at)?, *t.get(at + 1)?]) as usize, 2) } else { (u32::from_be_bytes([*t.get(at)?, *t.get(at + 1)?, *t.get(at + 2)?, *t.get(at + 3)?]) as usize, 4) };
+            let size = *t.get(at + hdr)? as usize;
+            if n == 0 || !(1..=4).contains(&size) {
+                return None;
+            }
+            Some((tag, at + hdr + 1, size, n + 1))
+        }
+    }
+}
+
+fn apply_offset_fault(bytes: &mut [u8], first: usize, size: usize, n: usize, f: &OffsetFault) -> bool {
+    if n == 0 || first + n * size > bytes.len() {
+        return false;
+    }
+    let idx = match f.idx {
+        u32::MAX => n - 1,
+        x if x == u32::MAX - 1 => n.saturating_sub(2),
+        x => x as usize % n,
+    };
+    let rd = |b: &[u8], i: usize| -> u64 { b[first + i * size..first + (i + 1) * size].iter().fold(0u64, |a, x| (a << 8) | *x as u64) };
+    let mask: u64 = if size == 4 { 0xFFFF_FFFF } else { (1u64 << (8 * size)) - 1 };
+    let cur = rd(bytes, idx);
+    let new = match f.mode {
+        0 => cur ^ (1 << (f.arg as usize % (8 * size))),
+        1 => {
+            if idx + 1 >= n {
+                return false;
+            }
+            let nx = rd(bytes, idx + 1);
+            let (a, b) = (first + idx * size, first + (idx + 1) * size);
+            for k in 0..size {
+                bytes[b + k] = (cur >> (8 * (size - 1 - k))) as u8;
+                bytes[a + k] = (nx >> (8 * (size - 1 - k))) as u8;
+            }
+            return nx != cur;
+        }
+        2 => 0,
+        3 => cur / 2,
+        4 => mask,
+        5 => {
+            if idx == 0 {
+                return false;
+            }
+            rd(bytes, idx - 1).wrapping_sub(1) & mask
+        }
+        _ => {
+            if idx == 0 {
+                return false;
+            }
+            rd(bytes, idx - 1)
+        }
+    };
+    let a = first + idx * size;
+    for k in 0..size {
+        bytes[a + k] = (new >> (8 * (size - 1 - k))) as u8;
+    }
+    new != cur
 }
 
 pub struct IftHostile;
@@ -524,7 +623,19 @@ impl Engine for IftHostile {
         // feature sets that make the feature-map walk skip earlier records
         defs.push(Def { cps: vec![], inverted: true, features: Some(vec![*rng.pick(&[*b"smcp", *b"\0\0\0\0", *b"zzzz", *b"liga"])]), design: None });
         defs.push(Def::all());
-        HostileTrace { world: w, map_faults, patch_faults, defs, hash_seed: rng.next_u64() | 1 }
+        let hash_seed = rng.next_u64() | 1;
+        // half of the cases leave the mapping tables alone and damage the glyph offset arrays instead / as well
+        let mut carrier_faults = Vec::new();
+        if rng.chance(1, 2) {
+            for _ in 0..1 + rng.below(2) {
+                let (r1, r2) = (rng.next_u32(), rng.next_u32());
+                carrier_faults.push(OffsetFault { table: if rng.chance(1, 4) { 1 } else { 0 }, idx: *rng.pick(&[u32::MAX, u32::MAX, u32::MAX - 1, 0, 1, r1, r2]), mode: rng.below(7) as u8, arg: rng.next_u32() });
+            }
+            if rng.chance(1, 2) {
+                map_faults.clear();
+            }
+        }
+        HostileTrace { world: w, map_faults, patch_faults, defs, hash_seed, carrier_faults }
     }
     fn execute(&self, t: &mut HostileTrace, stats: &mut Stats) -> Verdict {
         use incremental_font_transfer::patch_group::{PatchGroup, UriStatus};
@@ -545,6 +656,18 @@ impl Engine for IftHostile {
                 }
             }
             b.add_raw(tag, payload);
+        }
+        let mut damaged: std::collections::BTreeMap<[u8; 4], Vec<u8>> = Default::default();
+        for cf in &t.carrier_faults {
+            let Some((tag, first, size, n)) = offset_array(&fr, &t.world, cf.table) else { continue };
+            let bytes = damaged.entry(tag).or_insert_with(|| fr.table_data(Tag::new(&tag)).map(|d| d.as_bytes().to_vec()).unwrap_or_default());
+            if apply_offset_fault(bytes, first, size, n, cf) {
+                landed = true;
+                stats.bump("fault.ift.base_font_glyph_offset_entry_rewritten");
+            }
+        }
+        for (tag, bytes) in damaged {
+            b.add_raw(Tag::new(&tag), bytes);
         }
         b.copy_missing_tables(fr);
         let font0 = b.build();
@@ -617,7 +740,7 @@ impl Engine for IftHostile {
             Err(_) => std::panic::resume_unwind(Box::new("IFT client panicked")),
         };
         stats.bump("oracle.C02.total_ift_client");
-        Verdict::Pass { digest, sig: fnv(serde_json::to_string(&(&t.map_faults, &t.patch_faults, &t.defs, &t.world.data_seed)).unwrap_or_default().as_bytes()), nontrivial: landed }
+        Verdict::Pass { digest, sig: fnv(serde_json::to_string(&(&t.map_faults, &t.patch_faults, &t.carrier_faults.iter().map(|f| (f.table, f.idx, f.mode, f.arg)).collect::<Vec<_>>(), &t.defs, &t.world.data_seed)).unwrap_or_default().as_bytes()), nontrivial: landed }
     }
     fn shrink(&self, t: &HostileTrace) -> Vec<HostileTrace> {
         let mut out = Vec::new();
@@ -626,6 +749,9 @@ impl Engine for IftHostile {
         }
         for f in drop_chunks(&t.patch_faults) {
             out.push(HostileTrace { patch_faults: f, ..t.clone() });
+        }
+        for f in drop_chunks(&t.carrier_faults) {
+            out.push(HostileTrace { carrier_faults: f, ..t.clone() });
         }
         for f in drop_chunks(&t.defs) {
             if !f.is_empty() {
